@@ -1,2 +1,252 @@
+//! C32 — cursor positions resolve to the innermost syntax node.
+//!
+//! Enumerated: every literal the reference grammar generates up to N tokens that the parser
+//! accepts, and **every offset** 0..=len in it. Oracle: an independent, hand-written walk of the
+//! public AST builds the tree of resolvable syntax nodes (the node kinds `IsographResolvedNode`
+//! can name) with their spans and addresses; the node returned by the real `resolve()` must
+//! (1) be a node of that tree (same address and kind), (2) contain the offset, as must all its
+//! ancestors, (3) have no child that contains the offset (innermost), and (4) carry a parent chain
+//! equal to its ancestors in the tree.
+
+use crate::par::par_map;
+use common_lang_types::{Span, TextSource, WithEmbeddedLocation};
+use intern::string_key::Intern;
+use isograph_lang_parser::{IsoLiteralExtractionResult, parse_iso_literal};
+use isograph_lang_types::{IsographResolvedNode, SelectionSet, SelectionType, VariableDeclaration};
+use mc_core::isogen;
 use mc_core::*;
-pub fn main(_a: &Args) -> i32 { machinery_error("not built yet") }
+use resolve_position::ResolvePosition;
+use serde_json::json;
+use std::panic::{AssertUnwindSafe, catch_unwind};
+
+#[derive(Debug)]
+struct N {
+    kind: &'static str,
+    addr: usize,
+    span: Option<(u32, u32)>,
+    dbg: String,
+    children: Vec<N>,
+}
+
+fn leaf<T: std::fmt::Debug>(kind: &'static str, w: &WithEmbeddedLocation<T>) -> N {
+    N { kind, addr: &w.item as *const T as usize, span: Some((w.location.span.start, w.location.span.end)), dbg: format!("{:?}", w.item), children: vec![] }
+}
+
+fn var_node(v: &WithEmbeddedLocation<VariableDeclaration>) -> N {
+    let mut n = leaf("VariableDeclarationInner", v);
+    n.children.push(leaf("VariableNameWrapper", &v.item.name));
+    n.children.push(leaf("TypeAnnotation", &v.item.type_));
+    n
+}
+
+fn set_node(ws: &WithEmbeddedLocation<SelectionSet>) -> N {
+    let mut n = leaf("SelectionSet", ws);
+    for s in &ws.item.selections {
+        let span = Some((s.location.span.start, s.location.span.end));
+        match &s.item {
+            SelectionType::Scalar(sc) => n.children.push(N { kind: "ScalarSelection", addr: sc as *const _ as usize, span, dbg: format!("{sc:?}"), children: vec![] }),
+            SelectionType::Object(o) => n.children.push(N { kind: "ObjectSelection", addr: o as *const _ as usize, span, dbg: format!("{o:?}"), children: vec![set_node(&o.selection_set)] }),
+        }
+    }
+    n
+}
+
+fn tree(r: &IsoLiteralExtractionResult) -> N {
+    match r {
+        IsoLiteralExtractionResult::EntrypointDeclaration(e) => {
+            let d = &e.item;
+            N { kind: "EntrypointDeclaration", addr: d as *const _ as usize, span: None, dbg: format!("{d:?}"), children: vec![leaf("EntityNameWrapper", &d.parent_type), leaf("ClientScalarSelectableNameWrapper", &d.client_field_name)] }
+        }
+        IsoLiteralExtractionResult::ClientFieldDeclaration(c) => {
+            let d = &c.item;
+            let mut ch = vec![leaf("EntityNameWrapper", &d.parent_type), leaf("ClientScalarSelectableNameWrapper", &d.client_field_name)];
+            if let Some(desc) = &d.description {
+                ch.push(leaf("Description", desc));
+            }
+            ch.push(set_node(&d.selection_set));
+            ch.extend(d.variable_definitions.iter().map(var_node));
+            N { kind: "ClientFieldDeclaration", addr: d as *const _ as usize, span: None, dbg: format!("{d:?}"), children: ch }
+        }
+        IsoLiteralExtractionResult::ClientPointerDeclaration(c) => {
+            let d = &c.item;
+            let mut ch = vec![leaf("EntityNameWrapper", &d.parent_type), leaf("ClientObjectSelectableNameWrapper", &d.client_pointer_name), leaf("TypeAnnotation", &d.target_type)];
+            if let Some(desc) = &d.description {
+                ch.push(leaf("Description", desc));
+            }
+            ch.push(set_node(&d.selection_set));
+            ch.extend(d.variable_definitions.iter().map(var_node));
+            N { kind: "ClientPointerDeclaration", addr: d as *const _ as usize, span: None, dbg: format!("{d:?}"), children: ch }
+        }
+    }
+}
+
+fn resolved_identity(r: &IsographResolvedNode<'_>) -> (&'static str, usize) {
+    use IsographResolvedNode::*;
+    match r {
+        EntrypointDeclaration(p) => ("EntrypointDeclaration", p.inner as *const _ as usize),
+        EntityNameWrapper(p) => ("EntityNameWrapper", p.inner as *const _ as usize),
+        Description(p) => ("Description", p.inner as *const _ as usize),
+        ClientFieldDeclaration(p) => ("ClientFieldDeclaration", p.inner as *const _ as usize),
+        ClientPointerDeclaration(p) => ("ClientPointerDeclaration", p.inner as *const _ as usize),
+        ScalarSelection(p) => ("ScalarSelection", p.inner as *const _ as usize),
+        ObjectSelection(p) => ("ObjectSelection", p.inner as *const _ as usize),
+        ClientScalarSelectableNameWrapper(p) => ("ClientScalarSelectableNameWrapper", p.inner as *const _ as usize),
+        ClientObjectSelectableNameWrapper(p) => ("ClientObjectSelectableNameWrapper", p.inner as *const _ as usize),
+        SelectionSet(p) => ("SelectionSet", p.inner as *const _ as usize),
+        TypeAnnotation(p) => ("TypeAnnotation", p.inner as *const _ as usize),
+        VariableNameWrapper(p) => ("VariableNameWrapper", p.inner as *const _ as usize),
+        VariableDeclarationInner(p) => ("VariableDeclarationInner", p.inner as *const _ as usize),
+    }
+}
+
+/// the `inner:` parts of a Debug-rendered PositionResolutionPath chain, innermost first
+fn chain_from_debug(dbg: &str) -> Vec<String> {
+    let pat = "PositionResolutionPath { inner: ";
+    let mut out = vec![];
+    let mut rest = dbg;
+    while let Some(i) = rest.find(pat) {
+        rest = &rest[i + pat.len()..];
+        let mut depth = 0i32;
+        let mut in_str = false;
+        let mut prev = ' ';
+        let mut end = rest.len();
+        for (j, c) in rest.char_indices() {
+            if in_str {
+                if c == '"' && prev != '\\' {
+                    in_str = false;
+                }
+            } else {
+                match c {
+                    '"' => in_str = true,
+                    '(' | '{' | '[' => depth += 1,
+                    ')' | '}' | ']' => depth -= 1,
+                    ',' if depth == 0 && rest[j..].starts_with(", parent: ") => {
+                        end = j;
+                        break;
+                    }
+                    _ => {}
+                }
+            }
+            prev = c;
+        }
+        out.push(rest[..end].to_string());
+        rest = &rest[end..];
+    }
+    out
+}
+
+fn contains(span: Option<(u32, u32)>, o: u32) -> bool {
+    span.is_none_or(|(a, b)| a <= o && o <= b)
+}
+
+/// path from root to the node with this address+kind
+fn find<'a>(n: &'a N, kind: &str, addr: usize, path: &mut Vec<&'a N>) -> bool {
+    path.push(n);
+    if n.kind == kind && n.addr == addr {
+        return true;
+    }
+    for c in &n.children {
+        if find(c, kind, addr, path) {
+            return true;
+        }
+    }
+    path.pop();
+    false
+}
+
+fn check_literal(text: &str) -> (u64, Vec<(u32, String, String)>) {
+    let ts = TextSource { relative_path_to_source_file: "src/f.ts".intern().into(), span: Some(Span::new(0, text.len() as u32)) };
+    let Ok(res) = parse_iso_literal(text.to_string(), "src/f.ts".intern().into(), Some("foo".to_string()), ts) else { return (0, vec![]) };
+    let t = tree(&res);
+    let mut fails = vec![];
+    let mut n = 0;
+    for o in 0..=text.len() as u32 {
+        n += 1;
+        let r = catch_unwind(AssertUnwindSafe(|| {
+            let node = res.resolve((), Span::new(o, o));
+            (resolved_identity(&node), format!("{node:?}"))
+        }));
+        let ((kind, addr), dbg) = match r {
+            Ok(x) => x,
+            Err(p) => {
+                fails.push((o, "panic".to_string(), format!("resolve panicked: {}", panic_message(&*p))));
+                continue;
+            }
+        };
+        let mut path = vec![];
+        if !find(&t, kind, addr, &mut path) {
+            fails.push((o, "unknown-node".into(), format!("resolved to a {kind} that is not a syntax node of the literal")));
+            continue;
+        }
+        if let Some(bad) = path.iter().find(|p| !contains(p.span, o)) {
+            fails.push((o, "not-containing".into(), format!("resolved to {kind}; its {} {:?} does not contain the offset", if std::ptr::eq(*bad, *path.last().unwrap()) { "own span" } else { "ancestor span" }, bad.span)));
+            continue;
+        }
+        let node = path.last().unwrap();
+        if let Some(c) = node.children.iter().find(|c| contains(c.span, o)) {
+            fails.push((o, format!("not-innermost:{}-inside-{}", c.kind, kind), format!("resolved to {kind} although its child {} {:?} contains the offset", c.kind, c.span)));
+            continue;
+        }
+        let want: Vec<&str> = path.iter().rev().map(|p| p.dbg.as_str()).collect();
+        let got = chain_from_debug(&dbg);
+        if got.iter().map(|s| s.as_str()).collect::<Vec<_>>() != want {
+            fails.push((o, "parent-chain".into(), format!("parent chain of the resolved {kind} has {} entries, the syntax tree has {} ancestors (or they differ)", got.len(), want.len())));
+        }
+    }
+    (n, fails)
+}
+
+pub fn main(args: &Args) -> i32 {
+    quiet_panics();
+    if let Some(path) = &args.replay {
+        let v = read_replay(path);
+        let text = v["case"]["text"].as_str().unwrap_or_else(|| machinery_error("replay lacks text"));
+        let (_, fails) = check_literal(text);
+        println!("text {text:?}: {} failing offsets; first: {:?}", fails.len(), fails.first());
+        if !fails.is_empty() {
+            println!("VIOLATION property=C32 replay={}", path.display());
+            return 1;
+        }
+        println!("REPLAY: no failure");
+        return 0;
+    }
+    let mut ev = Evidence::new(args, "exploration");
+    let budget = args.tier.pick(13, 15);
+    let mut g = isogen::Gen::new(true);
+    let mut texts: Vec<String> = g.literals(budget).iter().map(isogen::render).collect();
+    // tight layout (no optional spaces) makes spans of neighbouring nodes touch
+    texts.extend(g.literals(budget.min(11)).iter().map(|s| isogen::render_with(s, "", "\n")).collect::<Vec<_>>());
+    texts.sort();
+    texts.dedup();
+    let results = par_map(&texts, args.jobs, |t| check_literal(t));
+    let mut verdict = Verdict::new("C32");
+    let (mut evals, mut accepted) = (0u64, 0u64);
+    for (t, (n, fails)) in texts.iter().zip(&results) {
+        evals += n;
+        if *n > 0 {
+            accepted += 1;
+        }
+        for (o, class, what) in fails.iter().take(2) {
+            verdict.add(Violation { signature: class.clone(), what: format!("{t:?} offset {o}: {what}"), case: json!({"text": t, "offset": o}) });
+        }
+    }
+    verdict.violations.sort_by_key(|v| v.case["text"].as_str().map(|s| s.len()).unwrap_or(0));
+    let (code, n_new, known) = verdict.conclude("lang_mc/c32");
+    ev.violations = n_new as i64;
+    ev.set("evaluations", evals)
+        .set("distinct_nontrivial", accepted)
+        .set("rule", "every grammar sentence up to the token budget (rich alphabet; canonical and tight layout) that the parser accepts x every offset 0..=len; non-trivial = accepted literal")
+        .set("literals_generated", texts.len())
+        .set("literals_accepted", accepted)
+        .set("token_budget", budget)
+        .set("samples", json!(pick_samples(&texts)))
+        .set("known_findings_reobserved", json!(known))
+        .set("exhaustive", true);
+    ev.assume("the hand-written syntax tree walk (lang_mc/src/c32.rs) lists exactly the nodes IsographResolvedNode can name; at an offset where two sibling spans touch either sibling is accepted");
+    ev.write();
+    if accepted < 100 {
+        machinery_error("vacuous: fewer than 100 accepted literals");
+    }
+    println!("lang_mc C32: {} literals accepted of {}, {} offsets resolved, {} new violation signature(s), known {:?}", accepted, texts.len(), evals, n_new, known);
+    code
+}
